@@ -412,18 +412,8 @@ def rule_r10(ctx):
         raise AnalysisBroken("no use of the announced DATA length found")
 
 
-CONSUME = ("nni_msg_free", "nng_msg_free", "nni_lmq_put", "nni_aio_finish_msg", "nni_pipe_send", "nni_msgq_aio_put")
-
-
-def _rearms(prog, f, depth=0):
-    """f calls nni_pipe_recv on every path to its exit (a wrapper such as bus0_pipe_recv)."""
-    sites = {(c.b, c.i) for c in f.calls("nni_pipe_recv")}
-    if depth < 2:
-        for c in f.calls():
-            h = prog.resolve(f, c.node["fn"]) if c.node.get("fn") else None
-            if h is not None and h is not f and h.file == f.file and h.static and not h.cfg_failed and _rearms(prog, h, depth + 1):
-                sites.add((c.b, c.i))
-    return bool(sites) and f.dominated_by((f.exit, 0), blocked=lambda b, i, e: (b, i) in sites)
+CONSUME = ("nni_msg_free", "nng_msg_free", "nni_lmq_put", "nni_aio_finish_msg", "nni_pipe_send", "nni_msgq_aio_put", "nni_msgq_tryput")
+ARM = {"nni_pipe_recv": 1, "nni_msgq_aio_get": 1}      # arming call -> index of the aio argument
 
 
 def _fld(g, e, pos):
@@ -434,12 +424,29 @@ def _fld(g, e, pos):
     return lf
 
 
+def _arm_sites(prog, f, lf, depth=0):
+    """positions in f that (re-)arm the aio field lf: an arming call on it, or a call of a file-local helper that arms it
+    on every path to its exit"""
+    sites = set()
+    for c in f.calls():
+        fnm = c.node.get("fn")
+        if fnm in ARM and len(c.node["args"]) > ARM[fnm] and _fld(f, c.node["args"][ARM[fnm]], (c.b, c.i)) == lf:
+            sites.add((c.b, c.i))
+        elif fnm and depth < 2:
+            h = prog.resolve(f, fnm)
+            if h is not None and h is not f and h.file == f.file and h.static and not h.cfg_failed:
+                hs = _arm_sites(prog, h, lf, depth + 1)
+                if hs and h.dominated_by((h.exit, 0), blocked=lambda b, i, e: (b, i) in hs):
+                    sites.add((c.b, c.i))
+    return sites
+
+
 def rule_r9(ctx):
-    r = ctx.rule("C11.R9", "T2", "the receive loop of a connection survives a dropped message: in every protocol pipe receive "
-                 "callback, each path on which the message is taken off the receive aio (freed, queued, handed on, or the aio's "
-                 "message cleared) goes on to re-arm the receive (nni_pipe_recv, directly or through a wrapper), to close the "
-                 "pipe, or to start the pipe's forwarding aio whose callback re-arms -- otherwise one bad message silently "
-                 "wedges the connection", floor=40)
+    r = ctx.rule("C11.R9", "T2", "a message pump survives a dropped message: in every protocol callback of an aio that is armed with "
+                 "nni_pipe_recv or nni_msgq_aio_get, each path on which the message is taken off that aio (freed, queued, handed "
+                 "on, or the aio's message cleared) goes on to re-arm the same aio (directly or through a wrapper), to close the "
+                 "pipe, or to start another aio of the same object whose callback re-arms it -- otherwise one bad message "
+                 "silently wedges the connection (or the whole socket's send side)", floor=60)
     prog = ctx.prog
     cbs = {}
     for (f, aio, cb, arg, site) in prog.aio_callbacks():
@@ -448,27 +455,23 @@ def rule_r9(ctx):
             cbs.setdefault(f.file, {})[lf] = cb
     n = 0
     for file, amap in sorted(cbs.items()):
+        ffns = [h for h in prog.functions if h.file == file and not h.cfg_failed]
         for lf, cb in sorted(amap.items()):
             g = prog.fn(cb, file)
             if g is None or g.cfg_failed:
                 continue
-            # a receive callback: it reads the message of its own aio and that aio is what nni_pipe_recv is armed with
-            armed = any(c.node.get("fn") == "nni_pipe_recv" and len(c.node["args"]) > 1 and last_field(h.expand(c.node["args"][1])) == lf
-                        for h in prog.functions if h.file == file for c in h.calls("nni_pipe_recv"))
-            if not armed:
-                continue
+            if not any(_arm_sites(prog, h, lf, 2) for h in ffns):
+                continue      # not a pump: nothing arms this aio with a receive / queue get
             n += 1
             fld = lf.split(".", 1)[1]
-            # forwarding aios of the same pipe whose callback re-arms
+            rec = lf.split(".")[0]
+            # other aios of the same object whose callback re-arms this one
             fwd = set()
             for lf2, cb2 in amap.items():
                 g2 = prog.fn(cb2, file)
-                if lf2 != lf and g2 is not None and not g2.cfg_failed and lf2.split(".")[0] == lf.split(".")[0] and (
-                        any(True for _ in g2.calls("nni_pipe_recv")) or any(
-                            (lambda h: h is not None and h.file == file and _rearms(prog, h))(prog.resolve(g2, c.node["fn"]) if c.node.get("fn") else None)
-                            for c in g2.calls())):
+                if lf2 != lf and g2 is not None and not g2.cfg_failed and lf2.split(".")[0] == rec and _arm_sites(prog, g2, lf):
                     fwd.add(lf2)
-            cont = set()
+            cont = set(_arm_sites(prog, g, lf))
             consume = []
             msgvars = set()
             for t in g.sites():
@@ -485,11 +488,9 @@ def rule_r9(ctx):
             for c in g.calls():
                 fnm = c.node.get("fn")
                 args = [g.expand(a) if a is not None else None for a in c.node["args"]]
-                if fnm in ("nni_pipe_recv", "nni_pipe_close"):
-                    cont.add((c.b, c.i))
+                if (c.b, c.i) in cont:
                     continue
-                h = prog.resolve(g, fnm) if fnm else None
-                if h is not None and h.file == file and h.static and not h.cfg_failed and h is not g and _rearms(prog, h):
+                if fnm == "nni_pipe_close":
                     cont.add((c.b, c.i))
                     continue
                 if any(a is not None and _fld(g, a, (c.b, c.i)) in fwd for a in args) and fnm not in ("nni_aio_set_msg", "nni_aio_get_msg", "nni_aio_result"):
@@ -502,17 +503,15 @@ def rule_r9(ctx):
                     consume.append((c, "%s(nni_aio_get_msg(%s))" % (fnm, fld)))
                 elif fnm in CONSUME and any(a is not None and a.get("k") == "var" and a["n"] in msgvars for a in args):
                     consume.append((c, "%s(%s)" % (fnm, ",".join(a["n"] for a in args if a is not None and a.get("k") == "var" and a["n"] in msgvars))))
-            rec = lf.split(".")[0]
-            # parked: the message is stored in a field of the pipe from which another function of the file takes it and re-arms
+            # parked: the message is stored in a field of the object from which another function of the file takes it and re-arms
             for t in g.assigns():
                 l = t.node["lhs"]
                 e = g.expand(t.node["rhs"])
                 if l.get("k") == "mem" and e is not None and e.get("k") == "var" and e["n"] in msgvars:
                     pf = last_field(l)
                     if pf and pf.split(".")[0] == rec and any(
-                            h is not g and h.file == file and not h.cfg_failed and any(True for _ in h.calls("nni_pipe_recv")) and any(
-                                x.node.get("k") == "mem" and last_field(x.node) == pf for x in h.sites())
-                            for h in prog.functions):
+                            h is not g and _arm_sites(prog, h, lf) and any(x.node.get("k") == "mem" and last_field(x.node) == pf for x in h.sites())
+                            for h in ffns):
                         cont.add((t.b, t.i))
             # a pipe that its close slot has already marked closed is not re-armed
             closed_edges = {}
@@ -520,7 +519,7 @@ def rule_r9(ctx):
             for bid, k, atom, val in G.edge_facts(g):
                 if val and atom.get("k") == "mem" and (last_field(atom) or "").split(".")[0] == rec:
                     cf = last_field(atom)
-                    setters = [h.name for h in prog.functions if h.file == file and not h.cfg_failed for t in h.assigns()
+                    setters = [h.name for h in ffns for t in h.assigns()
                                if t.node["lhs"].get("k") == "mem" and last_field(t.node["lhs"]) == cf and const_of(h.expand(t.node["rhs"])) not in (None, 0)]
                     if setters and all(x in slotfns for x in setters):
                         closed_edges[bid] = k
@@ -538,13 +537,13 @@ def rule_r9(ctx):
                     path = g.find_path((c.b, c.i + 1), lambda b, i: (b, i) == (g.exit, 0), blocked=lambda b, i, e: (b, i) in cont,
                                        edge_ok=lambda b, k: not (b in closed_edges and closed_edges[b] == k))
                     ctx.fail(r, g, "%s then no re-arm" % what.split("(")[0], c.line,
-                             "%s takes the received message off %s at line %s (%s) and can return without nni_pipe_recv, "
-                             "nni_pipe_close or starting a forwarding aio: no further message is ever received on this "
-                             "connection, with no error reported" % (g.name, fld, c.line, what), g.path_lines(path))
+                             "%s takes the message off %s at line %s (%s) and can return without re-arming that aio, closing the "
+                             "pipe or starting a forwarding aio: nothing is ever received on this connection / taken from this "
+                             "queue again, with no error reported" % (g.name, fld, c.line, what), g.path_lines(path))
                 else:
-                    r.ob(g, "%s line %s: receive continues on every path" % (what, c.line))
-    if n < 14:
-        raise AnalysisBroken("only %d protocol receive callbacks recognised" % n)
+                    r.ob(g, "%s line %s: the pump continues on every path" % (what, c.line))
+    if n < 20:
+        raise AnalysisBroken("only %d protocol pump callbacks recognised" % n)
 
 
 def run(ctx):
